@@ -499,12 +499,16 @@ impl ViCut {
 			CmdReplay::Single(mut cmd) => {
 				if count > 1 {
 					// Override the counts with the one passed to the '.' command
-					if cmd.verb.is_some() {
-						if let Some(v_mut) = cmd.verb.as_mut() {
-							v_mut.0 = count
+					// Counts are normalized when a command is parsed: the motion carries the count, or the verb itself does
+					if let Some(v_mut) = cmd.verb.as_mut() {
+						v_mut.0 = 1;
+						match &mut v_mut.1 {
+							Verb::ReplaceCharInplace(_,n) |
+							Verb::ToggleCaseInplace(n) => *n = count as u16,
+							_ => {}
 						}
 						if let Some(m_mut) = cmd.motion.as_mut() {
-							m_mut.0 = 1
+							m_mut.0 = count
 						}
 					} else {
 						return Ok(()) // it has to have a verb to be repeatable, something weird happened
